@@ -11,7 +11,7 @@ for d, _, files in os.walk(exp):
         if f.endswith(".go") or f.endswith(".s"):
             tgt = os.path.normpath(os.path.join(repo, rel, "zz_verif_" + f))
             ov[tgt] = os.path.join(d, f)
-for name in ("overlay_extra.json", "overlay_tick.json", "overlay_sched.json"):
+for name in ("overlay_extra.json", "overlay_tick.json", "overlay_rt.json", "overlay_sched.json"):
     extra = os.path.join(build, name)
     if name == "overlay_sched.json":
         # the free-running -race pass of C19 is built from the repository's own builder sources
